@@ -3,6 +3,9 @@ package lib
 import (
 	"encoding/json"
 	"fmt"
+	"math"
+	"math/big"
+	"regexp"
 	"sort"
 	"strings"
 	"unicode/utf8"
@@ -121,8 +124,10 @@ func RefSelect(s *Stmt, pairs []Pair) ([]RefRow, error) {
 		first := g.pairs[0]
 		cols := make([]any, len(s.Fields))
 		for i, f := range s.Fields {
-			if !f.E.HasAggr() {
-				v, err := Eval(f.E, &Env{K: first.K, V: first.V, Defs: defs})
+			// names of aggregate fields are abbreviations too: expand first
+			fe := ExpandRefs(f.E, defs)
+			if !fe.HasAggr() {
+				v, err := Eval(fe, &Env{K: first.K, V: first.V, Defs: defs})
 				if err != nil {
 					return nil, err
 				}
@@ -131,7 +136,7 @@ func RefSelect(s *Stmt, pairs []Pair) ([]RefRow, error) {
 			}
 			aggr := map[*Node]any{}
 			var aerr error
-			f.E.Walk(func(n *Node) {
+			fe.Walk(func(n *Node) {
 				if aerr != nil || n.K != "call" || !AggrNames[n.S] {
 					return
 				}
@@ -145,7 +150,7 @@ func RefSelect(s *Stmt, pairs []Pair) ([]RefRow, error) {
 			if aerr != nil {
 				return nil, aerr
 			}
-			v, err := Eval(f.E, &Env{K: first.K, V: first.V, Defs: defs, Aggr: aggr})
+			v, err := Eval(fe, &Env{K: first.K, V: first.V, Defs: defs, Aggr: aggr})
 			if err != nil {
 				return nil, err
 			}
@@ -176,7 +181,19 @@ func refAggregate(n *Node, pairs []Pair, defs map[string]*Node) (any, error) {
 		return int64(len(pairs)), nil
 	case "sum", "avg", "min", "max":
 		allInt, allFloat := true, true
-		for _, v := range vals {
+		for i, v := range vals {
+			if s, ok := v.(string); ok {
+				// numeric text is read as the number it spells (clear-cut
+				// decimal spellings only)
+				if x, ok := ReadInt(s); ok {
+					v = x
+				} else if x, ok := ReadFloat(s); ok {
+					v = x
+				} else {
+					return nil, domain("%s over text %q", n.S, s)
+				}
+				vals[i] = v
+			}
 			switch v.(type) {
 			case int64:
 				allFloat = false
@@ -187,7 +204,27 @@ func refAggregate(n *Node, pairs []Pair, defs map[string]*Node) (any, error) {
 			}
 		}
 		if !allInt && !allFloat {
-			return nil, domain("%s over mixed integer and float values", n.S)
+			// integers and floats in one group: the sum and the mean are the
+			// mathematical ones (a float); min/max are left to the typed cases
+			if n.S != "sum" && n.S != "avg" {
+				return nil, domain("%s over mixed integer and float values", n.S)
+			}
+			var sum float64
+			for _, v := range vals {
+				switch x := v.(type) {
+				case int64:
+					if _, err := checkInt(x); err != nil {
+						return nil, err
+					}
+					sum += float64(x)
+				case float64:
+					sum += x
+				}
+			}
+			if n.S == "sum" {
+				return sum, nil
+			}
+			return sum / float64(len(vals)), nil
 		}
 		if allInt {
 			var sum int64
@@ -324,13 +361,7 @@ func OrderCmp(a, b any) (int, bool) {
 	case as && bs && !(aok && bok):
 		return strings.Compare(a.(string), b.(string)), true
 	case aok && bok && !(as && bs):
-		switch {
-		case an < bn:
-			return -1, true
-		case an > bn:
-			return 1, true
-		}
-		return 0, true
+		return an.Cmp(bn), true
 	}
 	ab, ok1 := a.(bool)
 	bb, ok2 := b.(bool)
@@ -346,21 +377,29 @@ func OrderCmp(a, b any) (int, bool) {
 	return 0, false
 }
 
-func orderNum(v any) (float64, bool) {
+var orderNumRe = regexp.MustCompile(`^[-+]?[0-9]+(\.[0-9]*)?([eE][-+]?[0-9]+)?$`)
+
+// orderNum reads a returned column as an exact number (no rounding: integers
+// near the int64 limits must not collapse onto one float).
+func orderNum(v any) (*big.Float, bool) {
+	f := new(big.Float).SetPrec(256)
 	switch x := v.(type) {
 	case int64:
-		return float64(x), true
+		return f.SetInt64(x), true
 	case float64:
-		return x, true
-	case string:
-		if i, ok := ReadInt(x); ok {
-			return float64(i), true
+		if math.IsNaN(x) || math.IsInf(x, 0) {
+			return nil, false
 		}
-		if f, ok := ReadFloat(x); ok {
+		return f.SetFloat64(x), true
+	case string:
+		if !orderNumRe.MatchString(x) {
+			return nil, false
+		}
+		if _, ok := f.SetString(x); ok {
 			return f, true
 		}
 	}
-	return 0, false
+	return nil, false
 }
 
 // TextCmp / NumCmp are the typed comparators used when the declared type of
@@ -380,13 +419,7 @@ func NumCmp(a, b any) (int, bool) {
 	if !ok1 || !ok2 {
 		return 0, false
 	}
-	switch {
-	case x < y:
-		return -1, true
-	case x > y:
-		return 1, true
-	}
-	return 0, true
+	return x.Cmp(y), true
 }
 
 func BoolCmp(a, b any) (int, bool) {
